@@ -81,6 +81,9 @@ type ReadPlan struct {
 	EOFWith  bool   `json:"eof_with"`  // last read returns (n>0, io.EOF)
 	ZeroRead bool   `json:"zero_read"` // occasional (0, nil) reads
 	ErrAt    int    `json:"err_at"`    // >=0: reading past this offset fails with ErrInjected
+	// LenExtra > 0 (with HasLen): Len() announces this many bytes more than the reader
+	// will deliver before EOF (a transfer with a known length that was cut)
+	LenExtra int `json:"len_extra,omitempty"`
 }
 
 type SimReader struct {
@@ -103,7 +106,7 @@ func NewSimReader(data []byte, plan ReadPlan) io.Reader {
 
 type simReaderLen struct{ *SimReader }
 
-func (r *simReaderLen) Len() int { return len(r.data) - r.pos }
+func (r *simReaderLen) Len() int { return len(r.data) - r.pos + r.plan.LenExtra }
 
 func (r *SimReader) Read(p []byte) (int, error) {
 	if vsim.W != nil {
